@@ -1,5 +1,5 @@
 #!/usr/bin/env python3
-"""Determinism self-test: run the same worker seed several times in separate processes, at several GOMAXPROCS,
+"""Determinism self-test: run the same worker seed several times in separate processes, at several GOMAXPROCS and GC settings,
 and compare the multiset of per-run trace hashes (grant sequences + block counts).
 usage: tools/determinism.py <prop> [nseeds] [checks]"""
 import json, os, subprocess, sys
@@ -19,8 +19,8 @@ total = 0
 for seed in range(1, nseeds + 1):
     results = {}
     procs = []
-    for gmp in (1, 1, 4, 16):
-        env = chk.goenv(); env['GOMAXPROCS'] = str(gmp); env['GODEBUG'] = 'asyncpreemptoff=1'
+    for gmp, gogc in ((1, '100'), (1, '10'), (4, '100'), (16, 'off')):
+        env = chk.goenv(); env['GOMAXPROCS'] = str(gmp); env['GODEBUG'] = 'asyncpreemptoff=1'; env['GOGC'] = gogc
         env['VERIF_PROPERTY'] = prop; env['VERIF_KNOWN'] = '/verif/known_findings.json'
         out = os.path.join(scratch, 'd-%d-%d-%d.json' % (seed, gmp, len(procs)))
         env['VERIF_OUT'] = out
@@ -42,6 +42,6 @@ for seed in range(1, nseeds + 1):
             print('MISMATCH seed=%d: GOMAXPROCS=%d runs=%d hashes=%d steps=%s  vs  GOMAXPROCS=%d runs=%d hashes=%d steps=%s; differing hashes=%d' % (
                 seed, base[0], base[1], len(base[2]), base[3], s[0], s[1], len(s[2]), s[3], len(set(base[2]) ^ set(s[2]))))
             break
-print('determinism %s: %d seeds x 4 processes (GOMAXPROCS 1,1,4,16), %d checks each: %d mismatching seeds' % (prop, total, checks, bad))
+print('determinism %s: %d seeds x 4 processes (GOMAXPROCS/GOGC 1/100, 1/10, 4/100, 16/off), %d checks each: %d mismatching seeds' % (prop, total, checks, bad))
 import shutil; shutil.rmtree(scratch, ignore_errors=True)
 sys.exit(1 if bad else 0)
